@@ -10,6 +10,8 @@ cmake -G Ninja -S "$WT" -B "$WT/_build" -DCMAKE_BUILD_TYPE=RelWithDebInfo -DBUIL
 nice -n 10 cmake --build "$WT/_build" -j $J >"$WT/build.log" 2>&1; BRC=$?
 ctest --test-dir "$WT/_build" -j8 --timeout 900 >"$WT/ctest.log" 2>&1; CRC=$?
 SUMMARY=$(grep -E "tests passed|tests failed" "$WT/ctest.log" | tail -1)
+FAILED=$(grep -E "\(Failed\)|\(Not Run\)|Not Run|Subprocess" "$WT/ctest.log" | tr '\n' ';' | cut -c1-300)
+BUILDERR=$(grep -E "error|Killed|fatal" "$WT/build.log" | head -3 | tr '\n' ';' | cut -c1-300)
 # run the suite two more times (the tests seed their random points from the clock)
 ctest --test-dir "$WT/_build" -j8 --timeout 900 >"$WT/ctest2.log" 2>&1; CRC2=$?
 ctest --test-dir "$WT/_build" -j8 --timeout 900 >"$WT/ctest3.log" 2>&1; CRC3=$?
@@ -18,12 +20,13 @@ if [ -f "$D/demo.cpp" ]; then
   g++ -std=c++11 -O1 -pthread -I/repo/include -I/repo/external/tl -I/usr/include/eigen3 "$D/demo.cpp" -o "$WT/demo_clean" >"$WT/demo_clean.log" 2>&1 && { timeout 600 "$WT/demo_clean" >"$WT/demo_clean.out" 2>&1; DEMO_CLEAN=$?; } || DEMO_CLEAN=compile-failed
   g++ -std=c++11 -O1 -pthread -I"$WT/include" -I"$WT/external/tl" -I/usr/include/eigen3 "$D/demo.cpp" -o "$WT/demo_mut" >"$WT/demo_mut.log" 2>&1 && { timeout 600 "$WT/demo_mut" >"$WT/demo_mut.out" 2>&1; DEMO_MUT=$?; } || DEMO_MUT=compile-failed
 fi
+export FAILED BUILDERR
 python3 - "$D" "$APPLY" "$BRC" "$CRC" "$CRC2" "$CRC3" "$SUMMARY" "$DEMO_CLEAN" "$DEMO_MUT" "$WT" <<'PY'
 import sys, json, os, subprocess
 d, apply_, brc, c1, c2, c3, summ, dc, dm, wt = sys.argv[1:11]
 tail = lambda p: open(p, errors='replace').read()[-600:] if os.path.exists(p) else ''
 v = {'patch_applies': apply_ == 'ok', 'suite_build_rc': int(brc), 'ctest_rc': [int(c1), int(c2), int(c3)], 'ctest_summary': summ,
-     'demo_exit_clean_tree': dc, 'demo_exit_with_change': dm,
+     'demo_exit_clean_tree': dc, 'demo_exit_with_change': dm, 'failed_tests': os.environ.get('FAILED', ''), 'build_errors': os.environ.get('BUILDERR', ''),
      'repo_head': subprocess.run(['git', '-C', '/repo', 'rev-parse', '--short', 'HEAD'], stdout=subprocess.PIPE, text=True).stdout.strip(),
      'demo_output_with_change_tail': tail(os.path.join(wt, 'demo_mut.out'))[-400:]}
 v['confirmed'] = v['patch_applies'] and v['suite_build_rc'] == 0 and v['ctest_rc'] == [0, 0, 0] and str(dc) == '0' and str(dm) not in ('0', 'na', 'compile-failed')
